@@ -661,31 +661,38 @@ func c28Oracle(family, entry string, doc []byte, spec c28ReaderSpec, maxdoc uint
 // ---------------------------------------------------------------------------
 // Rendering of the decoder's events for the model.
 
-func c28CoqTZ(tz compact_time.Timezone) string {
-	switch tz.Type {
-	case compact_time.TimezoneTypeLatitudeLongitude:
-		return cApp("TzLatLong", cZ(int64(tz.LatitudeHundredths)), cZ(int64(tz.LongitudeHundredths)))
-	case compact_time.TimezoneTypeUTCOffset:
-		return cApp("TzOffset", cZ(int64(tz.MinutesOffsetFromUTC)))
-	case compact_time.TimezoneTypeUnset:
-		return "TzUnset"
+// a compact_time.Time as a term of type gtime (CE.Model.CbeTime), field by field
+func c28CoqTZ(z compact_time.Timezone) string {
+	kind := "ZUnset"
+	switch z.Type {
 	case compact_time.TimezoneTypeUTC:
-		if tz.ShortAreaLocation == "Z" && tz.LongAreaLocation == "Etc/UTC" {
-			return "TzUTC"
-		}
+		kind = "ZUTC"
 	case compact_time.TimezoneTypeLocal:
-		if tz.ShortAreaLocation == "" && tz.LongAreaLocation == "" {
-			return "TzDateLocal"
-		}
+		kind = "ZLocal"
+	case compact_time.TimezoneTypeAreaLocation:
+		kind = "ZArea"
+	case compact_time.TimezoneTypeLatitudeLongitude:
+		kind = "ZLatLong"
+	case compact_time.TimezoneTypeUTCOffset:
+		kind = "ZOffset"
 	}
-	return cApp("TzNamed", cBytes([]byte(tz.LongAreaLocation)))
+	return fmt.Sprintf("{| z_kind := %s; z_short := %s; z_long := %s; z_lat := %s; z_lon := %s; z_min := %s |}", kind,
+		cBytes([]byte(z.ShortAreaLocation)), cBytes([]byte(z.LongAreaLocation)), cZ(int64(z.LatitudeHundredths)),
+		cZ(int64(z.LongitudeHundredths)), cZ(int64(z.MinutesOffsetFromUTC)))
 }
 
 func c28CoqTok(e Ev) string {
 	if e.K == "tm" {
 		t := e.T
-		return cApp("RTime", cApp("mkTime", cNi(int(t.Type)), cZ(int64(t.Year)), cNi(int(t.Month)), cNi(int(t.Day)),
-			cNi(int(t.Hour)), cNi(int(t.Minute)), cNi(int(t.Second)), cN(uint64(t.Nanosecond)), c28CoqTZ(t.Timezone)))
+		kind := "KDate"
+		switch t.Type {
+		case compact_time.TimeTypeTime:
+			kind = "KTime"
+		case compact_time.TimeTypeTimestamp:
+			kind = "KTimestamp"
+		}
+		return cApp("RTime", fmt.Sprintf("{| g_kind := %s; g_year := %s; g_month := %d; g_day := %d; g_hour := %d; g_minute := %d; g_second := %d; g_nano := %d; g_zone := %s |}",
+			kind, cZ(int64(t.Year)), t.Month, t.Day, t.Hour, t.Minute, t.Second, t.Nanosecond, c28CoqTZ(t.Timezone)))
 	}
 	return cApp("REv", cEv(e))
 }
@@ -933,6 +940,79 @@ func (g *c28Gen) token() (string, []byte) {
 	}
 }
 
+// documents made of time values: encoded valid times, the same with one field
+// pushed out of range or one byte changed, raw bytes behind a time type code.
+// validateTime (40e3af2) accepts or rejects them; either way every reader must agree with memory.
+func (g *c28Gen) timeSoup(kinds map[string]int) []byte {
+	doc := []byte{0x81, 0}
+	n := 1 + g.r.Intn(4)
+	for i := 0; i < n; i++ {
+		var b []byte
+		switch g.r.Intn(5) {
+		case 0:
+			b = c28TimeDocs[g.r.Intn(len(c28TimeDocs))]
+			kinds["time-boundary"]++
+		case 1:
+			b = append([]byte{byte(0x7a + g.r.Intn(3))}, g.rbytes(3+g.r.Intn(12))...)
+			kinds["time-raw"]++
+		case 2:
+			b = append([]byte{}, g.timeBytes()...)
+			if b[0] < 0x7a || b[0] > 0x7c {
+				b = append([]byte{byte(0x7a + g.r.Intn(3))}, b...)
+			}
+			if len(b) > 1 {
+				b[1+g.r.Intn(len(b)-1)] ^= byte(1 << uint(g.r.Intn(8)))
+			}
+			kinds["time-flipped"]++
+		default:
+			b = g.timeBytes()
+			if b[0] < 0x7a || b[0] > 0x7c {
+				b = append([]byte{byte(0x7a + g.r.Intn(3))}, b...)
+			}
+			kinds["time-encoded"]++
+		}
+		doc = append(doc, b...)
+		if g.r.Intn(3) == 0 {
+			doc = append(doc, byte(g.r.Intn(100))) // something after the time: alignment shows in the next event
+		}
+	}
+	return doc
+}
+
+// time values at the edges of validateTime (type code + payload)
+var c28TimeDocs = [][]byte{
+	{0x7a, 0x21, 0x04, 0x00},                   // 2001-01-01
+	{0x7a, 0x20, 0x04, 0x00},                   // day 0
+	{0x7a, 0x01, 0x04, 0x00},                   // month 0
+	{0x7a, 0xbf, 0x05, 0x00},                   // month 13 day 31
+	{0x7a, 0x5e, 0x04, 0x00},                   // February 30
+	{0x7a, 0x21, 0x00, 0x1f},                   // year 0 (encoded 3999)
+	{0x7a, 0, 0, 0},                            // zero date
+	{0x7b, 0x00, 0x00, 0xf0},                   // 00:00:00 UTC, magnitude 0
+	{0x7b, 0x00, 0x80, 0xfb},                   // hour 23
+	{0x7b, 0x00, 0x00, 0xfc},                   // hour 24
+	{0x7b, 0x00, 0xe0, 0xf1},                   // minute 60 (bits spill)
+	{0x7b, 0xe0, 0x01, 0xf0},                   // second 60
+	{0x7b, 0xe8, 0x01, 0xf0},                   // second 61
+	{0x7b, 0x06, 0xff, 0xff, 0xff, 0x03, 0, 0}, // magnitude 3, nanoseconds 2^30-1
+	{0x7b, 0, 0, 0},                            // zero time
+	{0x7b, 0x01, 0x00, 0xf0, 0x02, 'Z'},        // zone "Z"
+	{0x7b, 0x01, 0x00, 0xf0, 0x02, 'L'},        // zone "L"
+	{0x7b, 0x01, 0x00, 0xf0, 0x0e, 'E', '/', 'P', 'a', 'r', 'i', 's'},
+	{0x7b, 0x01, 0x00, 0xf0, 0x0e, 'e', '/', 'P', 'a', 'r', 'i', 's'}, // lower-case first character
+	{0x7b, 0x01, 0x00, 0xf0, 0x08, 'A', ' ', 'b', 'c'},                // a space in the name
+	{0x7b, 0x01, 0x00, 0xf0, 0x06, 'U', 'T', 'C'},                     // a UTC alias that is preserved
+	{0x7b, 0x01, 0x00, 0xf0, 0x00, 0x9f, 0x05},                        // offset +1439
+	{0x7b, 0x01, 0x00, 0xf0, 0x00, 0xa0, 0x05},                        // offset +1440
+	{0x7b, 0x01, 0x00, 0xf0, 0x00, 0x00, 0x00},                        // offset 0 = UTC
+	{0x7b, 0x01, 0x00, 0xf0, 0x51, 0x46, 0x50, 0x46},                  // latitude/longitude in range
+	{0x7b, 0x01, 0x00, 0xf0, 0xff, 0x7f, 0xff, 0x7f},                  // latitude/longitude out of range
+	{0x7c, 0x00, 0x00, 0x08, 0x21, 0x00},                              // timestamp, magnitude 0
+	{0x7c, 0x00, 0x00, 0x00, 0x20, 0x00},                              // timestamp day 0 (not the zero value: year)
+	{0x7c, 0, 0, 0, 0, 0},                                             // zero timestamp
+	{0x7c, 0x01, 0x00, 0x08, 0x21, 0x00, 0x0e, 'M', '/', 'T', 'o', 'k', 'y', 'o'},
+}
+
 // token soup: header + random tokens. Structure is irrelevant to the decoder.
 func (g *c28Gen) soup(kinds map[string]int) []byte {
 	doc := []byte{0x81}
@@ -1031,6 +1111,10 @@ func c28FixedDocs() []c28Doc {
 
 func c28Docs(c *Ctx, g *c28Gen, kinds map[string]int) []c28Doc {
 	docs := c28FixedDocs()
+	for _, t := range c28TimeDocs {
+		docs = append(docs, c28Doc{"time-boundary", append([]byte{0x81, 0}, t...)})
+	}
+	nFixed := len(docs)
 	nEv := c.Pick(60, 600)
 	for i := 0; i < nEv; i++ {
 		evs := g.eg.Document()
@@ -1042,6 +1126,13 @@ func c28Docs(c *Ctx, g *c28Gen, kinds map[string]int) []c28Doc {
 			}
 		}
 	}
+	for i := 0; i < c.Pick(60, 600); i++ {
+		d := g.timeSoup(kinds)
+		docs = append(docs, c28Doc{"soup-time", d})
+		if i%4 == 0 {
+			docs = append(docs, c28Doc{"mutated-soup-time", g.mutate(d)})
+		}
+	}
 	for i := 0; i < c.Pick(150, 1500); i++ {
 		d := g.soup(kinds)
 		docs = append(docs, c28Doc{"soup", d})
@@ -1049,6 +1140,9 @@ func c28Docs(c *Ctx, g *c28Gen, kinds map[string]int) []c28Doc {
 			docs = append(docs, c28Doc{"mutated-soup", g.mutate(d)})
 		}
 	}
+	// the case budget of the quick tier ends before the list does: mix the generated families
+	gen := docs[nFixed:]
+	c.Rng.Shuffle(len(gen), func(i, j int) { gen[i], gen[j] = gen[j], gen[i] })
 	return docs
 }
 
@@ -1159,7 +1253,7 @@ func c28RunPins(c *Ctx, cf *caseFile) {
 }
 
 func runC28(c *Ctx) {
-	c.Rep.Rule = "documents: fixed boundary set + generated rules-valid event streams encoded as CBE/CTE + CBE token soup over every type code + mutations (truncate/flip/insert/append); " +
+	c.Rep.Rule = "documents: fixed boundary set + time values at the edges of validateTime + generated rules-valid event streams encoded as CBE/CTE + CBE token soup over every type code + time-value soup (encoded, flipped, raw) + mutations (truncate/flip/insert/append); " +
 		"readers: scripts (whole, one byte per call, random sizes, (0,nil) reads interleaved, last data with io.EOF, explicit final (0,io.EOF), chunks larger than bufio's buffer) and testing/iotest wrappers; " +
 		"entries: Unmarshal{CBE,CTE,CE} and New{CBE,CTE,CE}Decoder().Decode; non-trivial = document longer than the 2-byte header; distinct = distinct (family, entry, document, reader)"
 	cf := c.Cases("readersplit", "CE.Model.ReaderSplit", "readersplit_case", "readersplit_case_ok")
@@ -1193,9 +1287,6 @@ func runC28(c *Ctx) {
 		}
 		for _, family := range c28Families(doc) {
 			for _, entry := range []string{"unmarshal", "decode"} {
-				if family == "ce" && entry == "decode" && len(doc) == 0 {
-					continue // UniversalDecoder.DecodeDocument on an empty document: C27's subject
-				}
 				hung := 0
 				for _, spec := range specs {
 					if hung >= 2 {
